@@ -121,13 +121,25 @@ def variants(item, rng, limit):
     return out
 
 
+UNDEF_REF = """
+config ZZ_USES_UNDEFINED
+    bool "refers to a name nobody defines"
+    depends on SOC_ZZ_NOT_DEFINED_ANYWHERE
+"""
+
+
 def construct(run, text, names, times=4):
     rejected, named, other = [], [], None
     junk = []
     for k in range(times):
         junk.append([object() for _ in range(37 * (k + 1))])  # perturb allocation between constructions
+        # the loader's optional checks are switched on in some of the constructions (the environment is read by
+        # Kconfig()): warnings about undefined names - with one such reference in the text - and the strict mode
+        env = [{}, {"KCONFIG_WARN_UNDEF": "y"}, {"KCONFIG_STRICT": "y", "KCONFIG_WARN_UNDEF_ASSIGN": "y"}, {}][k % 4]
+        saved = {n_: os.environ.get(n_) for n_ in env}
+        os.environ.update(env)
         try:
-            kconf = kc.build(text, run.scratch)
+            kconf = kc.build(text + (UNDEF_REF if env else ""), run.scratch)
             rejected.append(False)
             named.append([])
         except kc.KconfigError as e:
@@ -147,6 +159,12 @@ def construct(run, text, names, times=4):
             rejected.append(False)
             named.append([])
             other = "%s: %s" % (type(e).__name__, str(e)[:200])
+        finally:
+            for n_, v_ in saved.items():
+                if v_ is None:
+                    os.environ.pop(n_, None)
+                else:
+                    os.environ[n_] = v_
     return rejected, named, other
 
 
